@@ -47,17 +47,33 @@
   32-bit int arithmetic on indices does not overflow for           index_arithmetic_no_overflow,
     max ≤ INT_MAX/2; sharpness; where the caller's length enters   length_arithmetic_no_overflow,
                                                                    int_overflow_witnesses
+  the same for every REACHABLE state of a buffer created with      index_arithmetic_no_overflow_reachable,
+    bounds ≤ INT_MAX/2, no hypothesis on size_meta: alloc - size,  size_meta_constant
+    minsize, maxsize are constants of the buffer (SizeMeta.lean)
+  EVERY additive statement of cbuf.c (list regenerated from the    int_exprs_covered,
+    source on every run) is classified by a bound class, every     int_exprs_coverage_witness
+    class is safe (IntExprs.lean: int_classes_safe)
+  cbuf_copy / cbuf_move take TWO mutexes, lowest address first,    copy_move_deadlock_free,
+    refuse src == dst before locking: any threads, any calls, any  unordered_locking_deadlocks
+    directions, any schedule -- no deadlock, every execution ends    (Cbuf/LockOrder.lean: deadlock_free,
+    with all calls completed, no mutex held twice; source-first      wf_run, step_work, exclusive_step)
+    locking deadlocks (witness), so does src == dst
 
   NOT proved / not modelled:
   * the locking discipline itself (every public function takes and releases the mutex exactly once,
     never nested) is a property of the C text: the harness checks it on every call of every
-    generated history (`!LOCK` marker); the theorem starts from that discipline.  Lock ORDER of
-    cbuf_copy / cbuf_move (lowest address first, deadlock freedom) is not modelled.
+    generated history (`!LOCK` marker); the theorem starts from that discipline.  The lock ORDER of
+    cbuf_copy / cbuf_move is modelled at the level of the mutexes (LockOrder.lean); that the C text
+    follows it is checked by the harness: every two-buffer call of every history must take the two
+    mutexes in the same order as every earlier one (`lock-order-inverted`), and two real threads
+    copy and move in opposite directions under a watchdog (`--mt`).  The product of the two-lock
+    protocol with the data (a concurrent copy/move history is a sequential one) is NOT proved: Lin.lean
+    covers one mutex; the harness checks conservation of bytes in the two-thread run.
   * a closed form of the line finder of the replay side ("the k-th line start from the end"): the
     specification is the list-level scan; proved of it: line-boundary property, bounds.
-  * `alloc - size` (size_meta) staying constant is true of `grow` by construction but not stated as
-    an invariant; the overflow theorem takes the bound on it as a hypothesis; the list of `int`
-    expressions is transcribed by hand from cbuf.c.
+  * the CLASS of each additive statement of cbuf.c (which bound keeps it in range) is assigned by
+    hand in IntExprs.lean; mechanical is only that no statement of the source escapes the table.
+    Multiplications (`2 * CBUF_MAGIC_LEN`) and the `%` operands are constants / already bounded.
   * cbuf_destroy has no model state (end of a history); realloc/malloc never fail in the model.
 -/
 import PdshVerif.Cbuf.PairRefine
@@ -65,6 +81,9 @@ import PdshVerif.Cbuf.Lin
 import PdshVerif.Cbuf.Api
 import PdshVerif.Cbuf.ScanFacts
 import PdshVerif.Cbuf.IntBounds
+import PdshVerif.Cbuf.IntExprs
+import PdshVerif.Cbuf.SizeMeta
+import PdshVerif.Cbuf.LockOrder
 
 namespace PdshVerif.C13
 open PdshVerif.Cbuf
@@ -483,6 +502,76 @@ theorem int_overflow_witnesses :
     (let size := INT_MAX / 2 + 1; size + size > INT_MAX ∧ (size - 1) + (size - 1) ≤ INT_MAX) ∧
     (1 : Nat) + INT_MAX > INT_MAX :=
   ⟨index_overflow_witness, len_overflow_witness⟩
+
+/-! ### the two-lock protocol of cbuf_copy / cbuf_move -/
+
+/-- DEADLOCK FREEDOM of the calls of cbuf.h: any number of threads, each making any sequence of
+    single-buffer calls and of copies / moves between distinct buffers IN ANY DIRECTIONS, under any
+    schedule: (1) a reachable configuration in which no thread can move is one in which every call
+    has returned; (2) no execution is longer than the (finite) work of the threads -- so every
+    execution that keeps going ends, with all calls completed; (3) no mutex is ever held twice. -/
+theorem copy_move_deadlock_free (progs : List (List LockOrder.Call))
+    (h : ∀ p ∈ progs, ∀ c ∈ p, LockOrder.IsCbufCall c) (sched : List Nat) (cfg : List LockOrder.Th)
+    (hr : LockOrder.run (LockOrder.initial progs) sched = some cfg) :
+    ((∀ t ∈ cfg, t.done = true) ∨ ∃ i, (LockOrder.step cfg i).isSome) ∧
+    LockOrder.work cfg + sched.length = LockOrder.work (LockOrder.initial progs) ∧
+    LockOrder.Exclusive cfg :=
+  ⟨LockOrder.cbuf_calls_never_deadlock progs h sched cfg hr, LockOrder.run_length_le sched hr,
+   LockOrder.exclusive_run sched (LockOrder.exclusive_initial progs) hr⟩
+
+/-- the address comparison and the `src == dst` refusal are both needed: source-first locking
+    deadlocks two threads that copy in opposite directions, and a copy of a buffer onto itself
+    would block on its own (non-recursive) mutex -/
+theorem unordered_locking_deadlocks :
+    (∃ cfg, LockOrder.run (LockOrder.initial [[LockOrder.pairNaive 0 1], [LockOrder.pairNaive 1 0]]) [0, 1, 0, 1] = some cfg ∧
+      (∀ i, i < 2 → LockOrder.step cfg i = none) ∧ cfg.all (fun t => !t.done) = true) ∧
+    (∃ cfg, LockOrder.run (LockOrder.initial [[LockOrder.pairNaive 3 3]]) [0, 0] = some cfg ∧
+      LockOrder.step cfg 0 = none ∧ cfg.all (fun t => !t.done) = true) :=
+  ⟨LockOrder.naive_protocol_deadlocks, LockOrder.same_buffer_self_deadlock⟩
+
+/-! ### size_meta is a constant of the buffer -/
+
+/-- `alloc - size` (what cbuf_grow calls size_meta), `minsize` and `maxsize` keep the values
+    `cbuf_create` gave them, over every history, whatever admissible growth policy is followed at
+    each step -/
+theorem size_meta_constant (mn mx : Int) (sm : Nat) (c : Cbuf) (hc : create mn mx sm = some c)
+    (ops : List (APolicy × OpR)) :
+    let c' := (runMRp c ops).2
+    c'.alloc - c'.size = sm ∧ (c'.minsize : Int) = mn ∧ (c'.maxsize : Int) = max mn mx := by
+  have hg := runMRp_geo ops c
+  obtain ⟨h1, h2, h3⟩ := create_geo hc
+  exact ⟨hg.smeta.trans h1, by rw [hg.minsize]; exact h2, by rw [hg.maxsize]; exact h3⟩
+
+/-- the overflow theorem WITHOUT the hypothesis on size_meta: for every buffer created with bounds
+    up to INT_MAX/2 (and the meta cells of either build flavour), in every reachable state, none of
+    the index expressions overflows a C int, and no class of additive statement of cbuf.c that does
+    not involve the caller's length does -/
+theorem index_arithmetic_no_overflow_reachable (mn mx : Int) (sm : Nat) (hsm : 0 < sm) (hsm' : sm ≤ 1 + 2 * 8)
+    (c : Cbuf) (hc : create mn mx sm = some c) (hmax : max mn mx ≤ (INT_MAX / 2 : Nat))
+    (ops : List (APolicy × OpR)) :
+    let c' := (runMRp c ops).2
+    (∀ e ∈ indexExprs c', e.2 ≤ INT_MAX) ∧
+    (∀ k : IntClass, k ≠ .lenDep → k.bound c' 0 ≤ INT_MAX) := by
+  have hi := (runRp_refines (inv_create hsm hc).1 ops).2
+  obtain ⟨h1, _, h3⟩ := size_meta_constant mn mx sm c hc ops
+  have hm : (runMRp c ops).2.maxsize ≤ INT_MAX / 2 := by
+    have : ((runMRp c ops).2.maxsize : Int) ≤ (INT_MAX / 2 : Nat) := by rw [h3]; exact hmax
+    exact Int.ofNat_le.mp this
+  have hmeta : (runMRp c ops).2.alloc - (runMRp c ops).2.size ≤ 1 + 2 * 8 := by rw [h1]; exact hsm'
+  exact ⟨index_exprs_safe hi hm hmeta, fun k hk => int_classes_safe_index hi hm hmeta k hk⟩
+
+set_option maxRecDepth 100000 in
+/-- EVERY additive statement of the cbuf.c under test (regenerated from the source on every run)
+    is classified by `intExprTable` (key: the statement text, whatever function it stands in): a
+    statement added to cbuf.c makes this theorem fail to build -/
+theorem int_exprs_covered : Gen.CBUF_INT_EXPRS.isSublist intExprKeys = true := by decide
+
+set_option maxRecDepth 100000 in
+/-- the coverage test is not vacuous: the list is not empty and an unknown statement is refused -/
+theorem int_exprs_coverage_witness :
+    Gen.CBUF_INT_EXPRS.length > 80 ∧
+    (Gen.CBUF_INT_EXPRS ++ ["~i_dst=dst->i_in+len"]).isSublist intExprKeys = false := by
+  decide
 
 /-- non-vacuity of the extended theorems: replay after a read, rewind, a short descriptor write,
     then copy and move between two buffers -/
